@@ -8,6 +8,9 @@ CONSTANTS
   MaxOpen = 2
   MaxSets = 1
   MaxTicks = 2
+  MaxTraced = 0
+  ExitKinds = {FALSE}
+  LateKinds = {}
   MaxRules = 1
   Triggers = {0, 1, 2}
 VIEW view
